@@ -349,17 +349,25 @@ char* FailableMemoryAllocator::alloc_memory(size_t size, const char* file, size_
     currentAllocNumber_++;
     LocationToFailAllocNode* current = head_;
     LocationToFailAllocNode* previous = NULLPTR;
+    LocationToFailAllocNode* toFail = NULLPTR;
+    LocationToFailAllocNode* beforeToFail = NULLPTR;
 
+    /* every pending node has to see the allocation, otherwise the local counts of later nodes fall behind */
     while (current) {
-      if (current->shouldFail(currentAllocNumber_, file, line)) {
-        if (previous) previous->next_ = current->next_;
-        else head_ = current->next_;
-
-        free_memory((char*) current, size, __FILE__, __LINE__);
-        return NULLPTR;
+      bool fails = current->shouldFail(currentAllocNumber_, file, line);
+      if (fails && toFail == NULLPTR) {
+        toFail = current;
+        beforeToFail = previous;
       }
       previous = current;
       current = current->next_;
+    }
+    if (toFail) {
+      if (beforeToFail) beforeToFail->next_ = toFail->next_;
+      else head_ = toFail->next_;
+
+      free_memory((char*) toFail, size, __FILE__, __LINE__);
+      return NULLPTR;
     }
     return TestMemoryAllocator::alloc_memory(size, file, line);
 }
